@@ -1,7 +1,9 @@
 package main
 
 import (
+	"go/token"
 	"go/types"
+	"sort"
 	"strconv"
 	"strings"
 
@@ -43,6 +45,110 @@ func (fa *FuncAnalysis) GuardsOf(in ssa.Instruction) []Guard {
 }
 
 func (fa *FuncAnalysis) GuardsOfBlock(b *ssa.BasicBlock) []Guard {
+	return fa.guardsOfBlock(b, 0)
+}
+
+// nilClass classifies an SSA value as provably nil ("nil"), provably non-nil ("nonnil") or unknown ("").
+func nilClass(v ssa.Value) string {
+	switch x := v.(type) {
+	case *ssa.Const:
+		if x.Value == nil {
+			return "nil"
+		}
+		return "nonnil"
+	case *ssa.MakeInterface:
+		return "nonnil"
+	case *ssa.Call:
+		if k := CalleeKey(x.Common()); isErrCtor(k) {
+			return "nonnil"
+		}
+	case *ssa.Extract:
+		return ""
+	}
+	return ""
+}
+
+// phiCorrelated: the block is entered through an edge that tests a phi against nil (`if err != nil` after a join, the
+// shape that an inlined `if err := helper(...); err != nil` produces).  When every incoming value of the phi is
+// provably nil or provably non-nil, the test tells which predecessors control came from, and the facts common to
+// those predecessors hold as well.
+func (fa *FuncAnalysis) phiCorrelated(iff *ssa.If, takenTrue bool, depth int) []Guard {
+	if depth > 3 {
+		return nil
+	}
+	bo, ok := iff.Cond.(*ssa.BinOp)
+	if !ok || (bo.Op != token.EQL && bo.Op != token.NEQ) {
+		return nil
+	}
+	var phi *ssa.Phi
+	if p, ok := bo.X.(*ssa.Phi); ok && nilClass(bo.Y) == "nil" {
+		phi = p
+	} else if p, ok := bo.Y.(*ssa.Phi); ok && nilClass(bo.X) == "nil" {
+		phi = p
+	}
+	if phi == nil {
+		return nil
+	}
+	wantNil := (bo.Op == token.EQL) == takenTrue
+	var compat []int
+	for i, ed := range phi.Edges {
+		switch nilClass(ed) {
+		case "nil":
+			if wantNil {
+				compat = append(compat, i)
+			}
+		case "nonnil":
+			if !wantNil {
+				compat = append(compat, i)
+			}
+		default:
+			// unknown value: it may be either, so this predecessor is compatible with both outcomes
+			compat = append(compat, i)
+		}
+	}
+	if len(compat) == 0 || len(compat) == len(phi.Edges) {
+		return nil
+	}
+	// facts common to all compatible predecessors (including the edge into the join block)
+	var common map[string]Guard
+	pb := phi.Block()
+	for _, i := range compat {
+		pred := pb.Preds[i]
+		gs := fa.guardsOfBlock(pred, depth+1)
+		for k, s := range pred.Succs {
+			if s == pb {
+				if g, ok := fa.EdgeFact(pred, k); ok && len(pred.Succs) == 2 && pred.Succs[0] != pred.Succs[1] {
+					gs = append(gs, g)
+				}
+			}
+		}
+		set := map[string]Guard{}
+		for _, g := range gs {
+			set[g.String()] = g
+		}
+		if common == nil {
+			common = set
+			continue
+		}
+		for k := range common {
+			if _, ok := set[k]; !ok {
+				delete(common, k)
+			}
+		}
+	}
+	var out []Guard
+	var keys []string
+	for k := range common {
+		keys = append(keys, k)
+	}
+	sort.Strings(keys)
+	for _, k := range keys {
+		out = append(out, common[k])
+	}
+	return out
+}
+
+func (fa *FuncAnalysis) guardsOfBlock(b *ssa.BasicBlock, depth int) []Guard {
 	var out []Guard
 	for d := b.Idom(); d != nil; d = d.Idom() {
 		if len(d.Instrs) == 0 {
@@ -69,6 +175,7 @@ func (fa *FuncAnalysis) GuardsOfBlock(b *ssa.BasicBlock) []Guard {
 			pos = !pos
 		}
 		out = append(out, Guard{Cond: t, Pos: pos, If: iff})
+		out = append(out, fa.phiCorrelated(iff, e0, depth)...)
 	}
 	return out
 }
